@@ -23,11 +23,11 @@ const (
 
 // Obligation is one decided instance of a rule.
 type Obligation struct {
-	Rule   string `json:"rule"`
-	Key    string `json:"key"`
-	Where  string `json:"where"`
-	Detail string `json:"detail,omitempty"`
-	Status string `json:"status"`
+	Rule   string   `json:"rule"`
+	Key    string   `json:"key"`
+	Where  string   `json:"where"`
+	Detail string   `json:"detail,omitempty"`
+	Status string   `json:"status"`
 	Path   []string `json:"path,omitempty"`
 }
 
@@ -98,7 +98,9 @@ func (r *Report) Undecided(rule, key, where, detail string) {
 }
 
 // Note records evidence-only information.
-func (r *Report) Note(rule, key, where, detail string) { r.add(rule, key, where, detail, Advisory, nil) }
+func (r *Report) Note(rule, key, where, detail string) {
+	r.add(rule, key, where, detail, Advisory, nil)
+}
 
 // Check is Ok or Bad depending on cond.
 func (r *Report) Check(cond bool, rule, key, where, okDetail, badDetail string) bool {
